@@ -119,7 +119,7 @@ def run(ctx):
 
     # ---- R3 attempt limit
     r = ctx.rule("R3", "limit test dominates every retry; limit arm fails the start Deferred and returns; count "
-                       "incremented per scheduled retry", 5, "B")
+                       "incremented per scheduled retry; nothing else gives up", 7, "B")
     lim = "self.request_retry_max_attempts != 0 and self._fetch_attempt_count >= self.request_retry_max_attempts"
     for h in (hoe, hfe):
         ch = ctx.cfg(h)
@@ -138,6 +138,22 @@ def run(ctx):
         eb = [n for n in arm if any(call_name(c) == "errback" and call_recv(c) == "self._start_d" for c in n.calls())]
         r.check(bool(eb) and not any(n.id in ch.reach([eb[0].id]) for n in retries), "%s#limit-arm" % h.qname,
                 "limit arm does not fail the start Deferred and return", where(h, h.node))
+        # ... and nothing else gives up: every other failure of the start Deferred in these handlers is the out-of-range
+        # answer met without a reset policy ("otherwise retrying continues indefinitely", whatever the error class)
+        allb = [n for n in ch.nodes if any(call_name(c) == "errback" and call_recv(c) == "self._start_d" for c in n.calls())]
+        p_ = h.first_param()
+        stray = []
+        for n in allb:
+            if n in arm:
+                continue
+            rf_ = resolved_facts(fh[n.id])
+            oor = any(pol and t.startswith("%s.check(" % p_) and "OffsetOutOfRangeError" in t and t.count(",") == 0 for t, pol in rf_)
+            nopol = ("self.auto_offset_reset is None", True) in rf_ or ("self.auto_offset_reset", False) in rf_
+            if not (oor and nopol):
+                stray.append("line %d under %s" % (n.lineno, sorted(t if pol else "not (%s)" % t for t, pol in rf_ if p_ in t or "retriable" in t)[:3]))
+        r.check(not stray, "%s#gives-up-only-at-the-limit" % h.qname, "the start Deferred is failed outside the limit arm and the "
+                "out-of-range-without-policy arm: %s" % stray, where(h, h.node), "no attempt limit configured and one broker error of an "
+                "unlisted class: start() fails instead of retrying indefinitely")
     incs = [n for n in cf.nodes if n.kind == "stmt" and ((isinstance(n.stmt, ast.AugAssign) and self_attr(
         n.stmt.target) == "_fetch_attempt_count" and isinstance(n.stmt.op, ast.Add) and norm(n.stmt.value) == "1") or (
         node_assign_value(n, "_fetch_attempt_count") is not None and norm(node_assign_value(n, "_fetch_attempt_count")) in (
@@ -193,12 +209,9 @@ def run(ctx):
     r = ctx.rule("R6", "retry limit, delays, reset policy and buffer cap hold what the constructor was given: no other writer", 5, "A")
     ci = prog.cls(CONS)
     for attr in ("request_retry_max_attempts", "retry_init_delay", "retry_max_delay", "auto_offset_reset", "max_buffer_size"):
-        ws = [(f, node) for f, k, node in prog.attr_accesses(ci, attr, False) if k == "write"]
-        inits = [(f, node) for f, node in ws if f.name == "__init__"]
-        others = [(f, node) for f, node in ws if f.name != "__init__"]
-        r.check(bool(inits) and not others, "%s#as-configured(%s)" % (CONS, attr),
-                "%s is overwritten outside the constructor (%s)" % (attr, ", ".join(sorted({f.qname for f, _n in others}))),
-                where(others[0][0], others[0][1]) if others else "", "the limit/policy applied to later requests - and to a consumer that is "
+        probs = given_value_problems(ctx, ci, attr)
+        r.check(not probs, "%s#as-configured(%s)" % (CONS, attr), "%s is not what the constructor was given: %s" % (attr, "; ".join(p_[0] for p_ in probs)),
+                where(probs[0][1], probs[0][2]) if probs and probs[0][1] is not None else "", "the limit/policy applied to later requests - and to a consumer that is "
                 "started again - is no longer the configured one (e.g. `retry for ever` silently becomes two attempts)")
 
     # ---- R4 reset policy
